@@ -38,6 +38,11 @@ class Clock:
     def time(self):
         return self.now
 
+    def __getattr__(self, name):
+        # (anything else a module asks of its `time` is the real thing)
+        import time as _real
+        return getattr(_real, name)
+
 
 class Harness:
     def __init__(self):
@@ -49,6 +54,16 @@ class Harness:
         self.clock = Clock()
         self._orig_time = mem.time
         mem.time = self.clock
+        # the clock is the server side's clock: every module of chuk_mcp.server that consults `time` (now or after a
+        # later change) reads the controlled one
+        import sys as _sys
+        import time as _real_time
+        import chuk_mcp.server.protocol_handler as _ph
+        self._patched = []
+        for mname, mod in list(_sys.modules.items()):
+            if mname.startswith("chuk_mcp.server") and mod is not None and mod is not mem and getattr(mod, "time", None) is _real_time:
+                self._patched.append(mod)
+                mod.time = self.clock
         # two more handlers (one older, one newer) live in the same process and are busy with their own sessions:
         # nothing they do may show in the store under test
         older = ProtocolHandler(ServerInfo(name="older", version="1"), ServerCapabilities())
@@ -63,6 +78,9 @@ class Harness:
 
     def close(self):
         self.mem.time = self._orig_time
+        import time as _real_time
+        for mod in getattr(self, "_patched", []):
+            mod.time = _real_time
         self.loop.close()
 
     def target(self, i: int) -> str:
@@ -152,10 +170,16 @@ class Harness:
                 v.append(("clear_return", f"clear_all_sessions returned {r!r}, expected {exp}"))
         elif name == "init":
             self.n_created += 1
-            ci = {"name": f"init-client-{self.n_created}", "version": "9"}
-            # (the client's info is whatever object the client sent: newer schema members, vendor extensions, odd values)
-            ci.update([{}, {"title": "Client \u00e9"}, {"websiteUrl": "https://example.test/c", "icons": [{"src": "data:,x", "sizes": ["48x48"]}]},
-                       {"x-vendor": {"build": None, "n": [1, 2.5]}, "description": ""}][self.n_created % 4])
+            # (clientInfo names the application, not the client: several clients running the same application send the
+            # very same object - each of their handshakes is a session of its own)
+            self.n_inits = getattr(self, "n_inits", 0) + 1
+            if self.n_inits % 3:
+                # (first and second of every three: the very same object, newer schema members included)
+                ci = {"name": "same-app", "version": "9", "websiteUrl": "https://example.test/app", "x-vendor": {"build": None}}
+            else:
+                ci = {"name": f"init-client-{self.n_created}", "version": "9"}
+                ci.update([{}, {"title": "Client \u00e9"}, {"icons": [{"src": "data:,x", "sizes": ["48x48"]}]},
+                           {"x-vendor": {"n": [1, 2.5]}, "description": ""}][(self.n_inits // 3) % 4])
             req_ver = op[1] if len(op) > 1 else "2025-03-26"
             msg = parse_message({"jsonrpc": "2.0", "id": self.n_created, "method": "initialize",
                                  "params": {"protocolVersion": req_ver, "clientInfo": ci, "capabilities": {}}})
